@@ -137,6 +137,10 @@ type vNetConn struct {
 	// waking a blocked reader) strikes at once — deterministically, unlike the future deadlines armed by `deadlines`.
 	// Only meaningful under a harness-controlled (concrete) clock.
 	pastDeadlines bool
+	// clocked: deadlines are kept as instants and strike when the harness-controlled clock has reached them and the
+	// harness calls Tick() (quantitative time: "no data for the idle time-out"), instead of "at any scheduling point"
+	clocked bool
+	dlAt    time.Time
 	// Close takes time (e.g. a TLS close_notify to a stalled peer): other goroutines run while it is in progress
 	slowClose bool
 }
@@ -225,6 +229,14 @@ func (c *vNetConn) SetDeadline(t time.Time) error {
 		c.dl = make(chan struct{})
 		c.dlFired = false
 	}
+	if c.clocked {
+		c.dlAt = t
+		if !t.IsZero() && !t.After(time.Now()) {
+			c.dlFired = true
+			close(c.dl)
+		}
+		return nil
+	}
 	if t.IsZero() {
 		return nil
 	}
@@ -246,6 +258,14 @@ func (c *vNetConn) SetDeadline(t time.Time) error {
 }
 func (c *vNetConn) SetReadDeadline(t time.Time) error  { return c.SetDeadline(t) }
 func (c *vNetConn) SetWriteDeadline(t time.Time) error { return c.SetDeadline(t) }
+
+// Tick: the harness has advanced its clock: a deadline in force whose instant has been reached strikes now.
+func (c *vNetConn) Tick() {
+	if c.clocked && !c.closed && !c.dlFired && !c.dlAt.IsZero() && !c.dlAt.After(time.Now()) {
+		c.dlFired = true
+		close(c.dl)
+	}
+}
 
 // PeerClose: the server closes its side of the connection (FIN); our side stays open until somebody closes it.
 func (c *vNetConn) PeerClose() { close(c.fin) }
